@@ -53,6 +53,8 @@ pub struct GenOpts {
     pub ample_only: bool,
     /// C12: mix in differential runs of the natural-number type
     pub nat_ops: bool,
+    /// C03/C20: now and then a diagram of tens of thousands of nodes (node_count agreement)
+    pub big_count: bool,
 }
 
 impl GenOpts {
@@ -72,6 +74,7 @@ impl GenOpts {
             io_mode: 0,
             ample_only: false,
             nat_ops: false,
+            big_count: false,
         }
     }
     pub fn emph(mut self, c: Class, w: u32) -> Self {
@@ -302,9 +305,48 @@ impl<'a> Gen<'a> {
     fn quant(&mut self) {
         if self.model.kind == Kind::Zbdd && self.model.n > 0 && self.rng.bool() {
             // ZBDDs implement BooleanFunction::restrict, but no quantification
+            // the pattern behind F25: restrict, add variables, restrict the same function with the
+            // new variables false - as ZBDD nodes the second cube is the first one
+            if self.model.n < self.opts.max_vars && self.weights[Class::AddVars as usize] > 0 && self.rng.chance(1, 5) {
+                if let Some(a) = self.pick_live() {
+                    let n0 = self.model.n;
+                    let m0 = (1u32 << n0) - 1;
+                    let pos = self.rng.next() as u32 & m0;
+                    let neg = self.rng.next() as u32 & m0 & !pos;
+                    let d = self.dest();
+                    self.push(Instr::Restrict { d, a, pos, neg });
+                    let k = self.rng.range(1, (self.opts.max_vars - n0).min(2) as u64) as u8;
+                    if self.opts.allow_names && self.rng.bool() {
+                        let names: Vec<String> = (0..k).map(|_| self.name()).collect();
+                        self.push(Instr::AddNamed { names, fault: IterFault::None });
+                    } else {
+                        self.push(Instr::AddVars { k });
+                    }
+                    if self.model.n > n0 && self.model.reg(a).is_some() {
+                        let newbits = ((1u32 << self.model.n) - 1) & !m0;
+                        let d2 = self.dest();
+                        self.push(Instr::Restrict { d: d2, a, pos, neg: neg | newbits });
+                    }
+                    return;
+                }
+            }
+            let m = (1u32 << self.model.n) - 1;
+            // an earlier restriction again, now with the upper variables (those added since,
+            // perhaps) restricted to false: as ZBDDs the two cubes can be the very same node
+            if self.rng.chance(1, 3) {
+                let prev = self.out.iter().rev().find_map(|i| match i {
+                    Instr::Restrict { a, pos, neg, .. } if self.model.reg(*a).is_some() => Some((*a, *pos, *neg)),
+                    _ => None,
+                });
+                if let Some((a, pos, neg)) = prev {
+                    let k = self.rng.range(1, self.model.n as u64) as u32;
+                    let upper = m & !((1u32 << k) - 1);
+                    let d = self.dest();
+                    return self.push(Instr::Restrict { d, a, pos: pos & !upper & m, neg: (neg | upper) & m });
+                }
+            }
             let Some(a) = self.pick_live() else { return self.leaf() };
             let d = self.dest();
-            let m = (1u32 << self.model.n) - 1;
             let pos = self.rng.next() as u32 & m;
             let neg = self.rng.next() as u32 & m & !pos;
             return self.push(Instr::Restrict { d, a, pos, neg });
@@ -435,6 +477,10 @@ impl<'a> Gen<'a> {
         self.push(i);
     }
     fn observe(&mut self) {
+        if self.opts.big_count && matches!(self.model.kind, Kind::Bdd | Kind::Bcdd) && self.rng.chance(1, 40) {
+            let k = *self.rng.pick(&[6u8, 10, 13, 14]);
+            return self.push(Instr::BigCount { k });
+        }
         let Some(a) = self.pick_live() else { return self.leaf() };
         let i = match self.rng.below(3) {
             0 => Instr::NodeCount { a },
@@ -583,7 +629,8 @@ impl<'a> Gen<'a> {
             x if x == Class::AddVars as usize => {
                 if self.model.n < self.opts.max_vars {
                     let k = self.rng.range(1, (self.opts.max_vars - self.model.n).min(2) as u64) as u8;
-                    self.push(Instr::AddVars { k })
+                    let i = if self.rng.chance(1, 6) { Instr::AddVarsInReorder { k } } else { Instr::AddVars { k } };
+                    self.push(i)
                 }
             }
             x if x == Class::Names as usize => self.names(),
